@@ -1024,6 +1024,11 @@ fn examine(recipe: &Recipe, worker: usize, thorough: bool, only: Option<(&str, &
                     cases.push(vec![Damage::Flip { off: *off, bit: rng.below(8) as u8 }]);
                 }
                 cases.push(vec![Damage::Set { off: *off, val: rng.next_u64() as u8 }]);
+                // boundary values: zeroed bytes (padding / empty length) and all-ones
+                cases.push(vec![Damage::Set { off: *off, val: 0x00 }]);
+                if thorough {
+                    cases.push(vec![Damage::Set { off: *off, val: 0xff }]);
+                }
             }
             // truncations: every length when small, near edges otherwise
             let lens: Vec<usize> = if small { (0..n).collect() } else { offsets.clone() };
